@@ -49,6 +49,7 @@ func runC09(c *Config, r *Report) {
 	c09R7(ic, r)
 	watcherPreparation(ic, r, "R09.4")
 	c09R8(ic, r)
+	c09R9(ic, r)
 }
 
 // c09R8: = R08.1 on the generators that create frames or host callbacks. Round-6 seed: the
@@ -1086,5 +1087,104 @@ func c09R6(ic *IC, r *Report) {
 	}
 	if cnt == 0 {
 		r.Pass("R09.6", "mode-read-at-run-time", "", fmt.Sprintf("%d mode field(s) of Interpreter; none is read in generator scope", len(modes)))
+	}
+}
+
+func init() {
+	ruleText["R09.9"] = "a panic in a goroutine of a cancelled evaluation cannot reach the top of the goroutine: every go statement of the run-time closures of the call generators starts a function literal whose first statement defers a guard - a function calling recover() that panics again only under a comparison of the frame's run id with the interpreter's - because after a cancellation the deferred functions of the script, which could have recovered, are not run any more and an unrecovered panic at the top of a goroutine terminates the host process"
+}
+
+// c09R9: found through the round-6 report on C09 (E4). for { func() { defer func() { recover() }();
+// panic("boom") }() } in three goroutines: cancelling the evaluation killed the host program
+// (panic: boom ... created by interp.call.func9).
+func c09R9(ic *IC, r *Report) {
+	info := ic.Info
+	// guards: in-package functions returning a literal that calls recover() and re-panics under a run id test
+	isGuardLit := func(fl *ast.FuncLit) bool {
+		rec, guarded := false, false
+		ast.Inspect(fl.Body, func(q ast.Node) bool {
+			c, ok := q.(*ast.CallExpr)
+			if !ok {
+				return true
+			}
+			id := identOf(c.Fun)
+			if id == nil {
+				return true
+			}
+			if id.Name == "recover" {
+				rec = true
+			}
+			if id.Name == "panic" {
+				for _, g := range pathGuards(fl.Body, c) {
+					if len(callsIn(info, g.cond, true, "interp.frame.runid")) > 0 && len(callsIn(info, g.cond, true, "interp.Interpreter.runid")) > 0 {
+						guarded = true
+					}
+				}
+			}
+			return true
+		})
+		return rec && guarded
+	}
+	guardFn := map[types.Object]bool{}
+	for f, hd := range ic.G.Funcs {
+		if hd.Decl.Body == nil {
+			continue
+		}
+		ast.Inspect(hd.Decl.Body, func(q ast.Node) bool {
+			if rs, ok := q.(*ast.ReturnStmt); ok && len(rs.Results) == 1 {
+				if fl, ok := unparen(rs.Results[0]).(*ast.FuncLit); ok && isGuardLit(fl) {
+					guardFn[f] = true
+				}
+			}
+			return true
+		})
+	}
+	n := 0
+	for _, name := range sortedKeys(ic.F) {
+		fi := ic.F[name]
+		if fi.Decl.Body == nil {
+			continue
+		}
+		k := 0
+		for _, cl := range (&c02ctx{ic: ic}).closuresOf(fi) {
+			ast.Inspect(cl.Body, func(q ast.Node) bool {
+				gs, ok := q.(*ast.GoStmt)
+				if !ok {
+					return true
+				}
+				k++
+				n++
+				why := ""
+				fl, isLit := unparen(gs.Call.Fun).(*ast.FuncLit)
+				switch {
+				case !isLit:
+					why = "it starts " + types.ExprString(gs.Call.Fun) + " directly, with no deferred guard"
+				case len(fl.Body.List) == 0:
+					why = "the function literal it starts is empty"
+				default:
+					ds, ok := fl.Body.List[0].(*ast.DeferStmt)
+					okGuard := false
+					if ok {
+						if dl, ok := unparen(ds.Call.Fun).(*ast.FuncLit); ok && isGuardLit(dl) {
+							okGuard = true
+						}
+						if inner, ok := unparen(ds.Call.Fun).(*ast.CallExpr); ok {
+							if o := calleeOf(info, inner); o != nil && guardFn[o] {
+								okGuard = true
+							}
+						}
+					}
+					if !okGuard {
+						why = "the first statement of the function literal it starts does not defer a guard (recover, and panic again only when the run is current)"
+					}
+				}
+				r.Check(why == "", "R09.9", fmt.Sprintf("%s/go#%d/panic-of-a-cancelled-run-stops-in-the-goroutine", name, k), ic.pos(gs.Pos()), "the goroutine defers the guard first",
+					"the go statement at "+ic.pos(gs.Pos())+" of "+name+": "+why+". After a cancellation the deferred functions of the script are not run any more, so a panic they would have recovered propagates to the top of the goroutine and terminates the host program (for { func() { defer func() { recover() }(); panic(\"boom\") }() } in a goroutine, then cancel)")
+				return true
+			})
+		}
+	}
+	if n < 2 {
+		r.Errorf("R09.9: only %d go statements found in the run-time closures of package interp (call and callBin expected)", n)
 	}
 }
